@@ -307,7 +307,7 @@ def run_core(ctx, c, invariants, properties, obs, rand_count, rand_depth, rand_l
             json.dump(scr, fh)
         tp = os.path.join(ctx.scratch, "trace%s%s.ndjson" % (tag, label))
         ctx.run_worker(["core", sp, tp], testing=testing, timeout=1800, env=env)
-        rows = read_ndjson(tp)
+        rows = LightRows(tp)       # (a thorough recording is hundreds of MB of JSON: only what is counted stays in memory)
         bad = validate_core_trace(ctx, rc, tp, rand_loggers, name="core-trace" + tag + label)
         # map bad lines to behaviours
         starts = [i for i, r_ in enumerate(rows) if r_["op"] == "Reset"]
@@ -359,6 +359,36 @@ def run_core(ctx, c, invariants, properties, obs, rand_count, rand_depth, rand_l
     ctx.extra["random_behaviours" + tag] = len(behaviours) - n_cover
     ctx.extra["trace_events" + tag] = len(rows)
     return rows, bad
+
+
+class LightRows:
+    """The recording as a list of rows that keeps only the call fields in memory; the complete row (with the
+    observations) is read back from the file when asked for by index."""
+    KEEP = ("op", "k", "a", "b", "l", "mc", "args")
+
+    def __init__(self, path):
+        self.path = path
+        self.light = []
+        self.offs = []
+        off = 0
+        with open(path, "rb") as fh:
+            for line in fh:
+                if line.strip():
+                    r = json.loads(line)
+                    self.light.append({k: r[k] for k in self.KEEP if k in r})
+                    self.offs.append(off)
+                off += len(line)
+
+    def __len__(self):
+        return len(self.light)
+
+    def __iter__(self):
+        return iter(self.light)
+
+    def __getitem__(self, i):
+        with open(self.path, "rb") as fh:
+            fh.seek(self.offs[i])
+            return json.loads(fh.readline())
 
 
 def run_jobs(jobs, width=3):
